@@ -4,7 +4,7 @@
 use crate::{
     Id,
     backend::decrypt::DecryptWriteBackend,
-    blob::{BlobId, BlobType},
+    blob::{BlobId, BlobType, DataId, tree::TreeId},
     error::RusticResult,
     index::{
         GlobalIndex, ReadIndex,
@@ -64,6 +64,17 @@ impl IndexHandle {
         Self(collector.into_index())
     }
 
+    /// The collector loop of `PrunePlan::from_prune_options` on already decoded files:
+    /// `IndexType::OnlyTrees`, per file `extend(packs)` then `extend(packs_to_delete)`.
+    pub fn from_files_prune(files: &[IndexFile]) -> Self {
+        let mut collector = IndexCollector::new(IndexType::OnlyTrees);
+        for f in files {
+            collector.extend(f.packs.clone());
+            collector.extend(f.packs_to_delete.clone());
+        }
+        Self(collector.into_index())
+    }
+
     /// Collector extended with arbitrary pack lists (one `extend` call per list).
     pub fn from_pack_lists(mode: u8, lists: Vec<Vec<IndexPack>>) -> Self {
         let mut collector = IndexCollector::new(index_type(mode));
@@ -109,6 +120,28 @@ impl GlobalHandle {
     pub fn total_size(&self, is_tree: bool) -> u64 {
         self.0.total_size(tpe(is_tree))
     }
+    /// the typed convenience wrappers of `ReadIndex`
+    pub fn has_tree(&self, id: Id) -> bool {
+        self.0.has_tree(&TreeId::from(id))
+    }
+    pub fn has_data(&self, id: Id) -> bool {
+        self.0.has_data(&DataId::from(id))
+    }
+    pub fn get_tree(&self, id: Id) -> Option<Answer> {
+        self.0.get_tree(&TreeId::from(id)).map(|ie| answer(ie, true))
+    }
+    pub fn get_data(&self, id: Id) -> Option<Answer> {
+        self.0.get_data(&DataId::from(id)).map(|ie| answer(ie, false))
+    }
+}
+
+/// `ReadIndex::blob_from_backend` on the index and the backend of an indexed repository:
+/// Ok(length of the returned blob) or Err(debug text of the error).
+pub fn repo_blob_from_backend<S: IndexedTree>(repo: &Repository<S>, is_tree: bool, id: Id) -> Result<usize, String> {
+    repo.index()
+        .blob_from_backend(repo.dbe(), tpe(is_tree), &BlobId::from(id))
+        .map(|b| b.len())
+        .map_err(|e| format!("{e:?}"))
 }
 
 /// Store an index file in an opened repository (encrypted like every index file).
